@@ -3,6 +3,7 @@
 # patch applies and builds, that the demonstration fails with it and passes without it.
 D=$1; WT=/tmp/wt/verify
 export GOFLAGS=-mod=mod GOPROXY=off GOSUMDB=off
+[ -d $WT ] || { mkdir -p $(dirname $WT); git -C ${VERIF_REPO:-/repo} worktree add -q --detach $WT HEAD || exit 3; }   # scratch worktree (remove it afterwards: git -C /repo worktree remove --force /tmp/wt/verify)
 git -C $WT checkout -q -- . ; git -C $WT clean -fdq
 declare -A PK=( [parse]=pkg/parse [syslutil]=pkg/syslutil [loader]=pkg/loader [sequencediagram]=pkg/sequencediagram [integrationdiagram]=pkg/integrationdiagram [parse_test]=pkg/parse [loader_test]=pkg/loader [syslutil_test]=pkg/syslutil [main]=cmd/sysl [exporter]=pkg/exporter [pbutil]=pkg/pbutil [cmdutils]=pkg/cmdutils [datamodeldiagram]=pkg/datamodeldiagram [database]=pkg/database [importer]=pkg/importer [relmod]=pkg/arrai/relmod [parser]=pkg/grammar [mermaid]=pkg/mermaid [diagrams]=pkg/diagrams [pbutil_test]=pkg/pbutil [exporter_test]=pkg/exporter [cmdutils_test]=pkg/cmdutils [importer_test]=pkg/importer )
 pkgs=""
